@@ -570,8 +570,17 @@ class MarkovNetwork(UndirectedGraph):
 
             # To compute clique potential, initially set it as unity factor
             var_card = [self.get_cardinality()[x] for x in node]
+            # Use the model's state names when they are known for the whole clique.
+            states = self.states
             clique_potential = DiscreteFactor(
-                node, var_card, np.ones(np.prod(var_card))
+                node,
+                var_card,
+                np.ones(np.prod(var_card)),
+                state_names=(
+                    {var: states[var] for var in node}
+                    if all(var in states for var in node)
+                    else {}
+                ),
             )
             # multiply it with the factors associated with the variables present
             # in the clique (or node)
